@@ -8,6 +8,7 @@ import (
 	"fmt"
 	"math/rand/v2"
 	"time"
+	"verif/monlog"
 
 	"github.com/scionproto/scion/pkg/addr"
 	"github.com/scionproto/scion/pkg/scrypto/signed"
@@ -299,7 +300,7 @@ func runC36Case(r *mon.Run, pool *gen.Pool, rng *rand.Rand, idx int, tl timeline
 // c36SignVerify: messages signed by a live signer verify with a verifier
 // bound to its ISD-AS; an expired signer refuses.
 func c36SignVerify(r *mon.Run, w *isdWorld, d trust.DB, sg trust.Signer, c *c36Chain, wit any, st *c36Stats) {
-	ctx := context.Background()
+	ctx := monlog.Alternate() // log level is a configuration dimension
 	msg := []byte(fmt.Sprintf("message for %s", c.Facts.Kind))
 	assoc := []byte("associated")
 	t0 := time.Now()
@@ -350,7 +351,7 @@ func c36SignVerify(r *mon.Run, w *isdWorld, d trust.DB, sg trust.Signer, c *c36C
 
 // c36Direct constructs signers with a chosen expiration around "now".
 func c36Direct(r *mon.Run, pool *gen.Pool, rng *rand.Rand, idx int, st *c36Stats) {
-	ctx := context.Background()
+	ctx := monlog.Alternate() // log level is a configuration dimension
 	dr := pool.Drawer(rng)
 	now := time.Now()
 	offs := []time.Duration{-2 * hour, -time.Minute, -time.Second, -300 * time.Millisecond, 300 * time.Millisecond, time.Second, time.Minute, 2 * hour}
